@@ -21,6 +21,16 @@ fn get<T>(slice: &[ValueType], index: T) -> &T::Output
 where
 	T: SliceIndex<[ValueType]>,
 {
+	#[cfg(yata_verif)]
+	{
+		crate::verif::count_access();
+		let len = slice.len();
+		return slice
+			.get(index)
+			.unwrap_or_else(|| panic!("YATA_VERIF_OOB site=smm::get len={len}"));
+	}
+
+	#[cfg(not(yata_verif))]
 	unsafe { slice.get_unchecked(index) }
 }
 
@@ -189,6 +199,9 @@ impl Method for SMM {
 				let count = index.saturating_sub(old_index) * is_after
 					+ old_index.saturating_sub(index) * (1 - is_after);
 
+				#[cfg(yata_verif)]
+				crate::verif::copy_bounds("SMM::next/copy", start, dest, count, self.slice.len());
+
 				#[allow(unsafe_code)]
 				unsafe {
 					std::ptr::copy(
@@ -198,6 +211,9 @@ impl Method for SMM {
 					);
 				}
 			}
+
+			#[cfg(yata_verif)]
+			crate::verif::bounds("SMM::next/insert", index, self.slice.len());
 
 			#[allow(unsafe_code)]
 			unsafe {
